@@ -224,12 +224,18 @@ func (st *Settings) Encode() {
 		)
 	}
 
+	// SETTINGS_ENABLE_PUSH is always written: when it is absent the peer
+	// assumes 1, so leaving it out could not say 0, and the client, which
+	// treats a PUSH_PROMISE as a connection error, never told the server so.
+	var push byte
 	if st.enablePush {
-		st.rawSettings = append(st.rawSettings,
-			byte(EnablePush>>8), byte(EnablePush),
-			0, 0, 0, 1,
-		)
+		push = 1
 	}
+
+	st.rawSettings = append(st.rawSettings,
+		byte(EnablePush>>8), byte(EnablePush),
+		0, 0, 0, push,
+	)
 
 	if st.maxStreams != 0 {
 		st.rawSettings = append(st.rawSettings,
